@@ -12,4 +12,6 @@ pub mod pivot;
 pub mod schur;
 pub mod triang;
 pub mod decomp;
+#[cfg(yui_verif)]
+pub mod verif_hook;
 mod util;
